@@ -693,6 +693,8 @@ def u_indicator(ctx, root):
     from pyvc.unit import find_site
     with Patches() as pt:
         pt.set(LG, "on_root", lambda *a, **k: root)
+        if hasattr(LG, "on_worker"):
+            pt.set(LG, "on_worker", lambda *a, **k: not root)
         pt.set(LG, "ProgressPrinter", Printer)
         # (without a total the display uses NaN fractions, outside the real-number model: a total is given, as at the call sites)
         ind = expect_no_exception(ctx, call(LG.Indicator, items, ctx.fresh_int("total", lo=1)), "C02/Indicator.__init__")
